@@ -250,45 +250,9 @@ theorem mul_exact (x y : Fmt) (hx : x.WF) (hy : y.WF) (a b : ℤ) (ha : x.InRang
 
 /-! ### nested expressions -/
 
-/-- expression trees over stored operands. -/
-inductive Expr
-  | leaf (f : Fmt) (c : ℤ)
-  | add (l r : Expr)
-  | sub (l r : Expr)
-  | mul (l r : Expr)
-
-/-- exact mathematical value of a tree. -/
-def Expr.value : Expr → ℚ
-  | .leaf f c => valueOf f c
-  | .add l r => l.value + r.value
-  | .sub l r => l.value - r.value
-  | .mul l r => l.value * r.value
-
-/-- fixed-point evaluation with optimal sizing (config `(rd, o)` at every node). `none` = format error. -/
-def Expr.eval (rd : Rounding) (o : Overflow) : Expr → Option (Fmt × ℤ)
-  | .leaf f c => some (f, c)
-  | .add l r => do
-      let (x, a) ← l.eval rd o; let (y, b) ← r.eval rd o
-      let t ← resultFmt .optimal .add x y
-      pure (t, arithRaw .add t rd o x y a b)
-  | .sub l r => do
-      let (x, a) ← l.eval rd o; let (y, b) ← r.eval rd o
-      let t ← resultFmt .optimal .sub x y
-      pure (t, arithRaw .sub t rd o x y a b)
-  | .mul l r => do
-      let (x, a) ← l.eval rd o; let (y, b) ← r.eval rd o
-      let t ← resultFmt .optimal .mul x y
-      pure (t, arithRaw .mul t rd o x y a b)
-
-def Expr.hasSigned : Expr → Bool
-  | .leaf f _ => f.signed
-  | .add l r => l.hasSigned || r.hasSigned
-  | .sub l r => l.hasSigned || r.hasSigned
-  | .mul l r => l.hasSigned || r.hasSigned
-
 /-- leaves are well-formed stored operands; subtraction nodes have a signed side (so the unsigned-negative
 exception cannot occur). -/
-def Expr.Ok : Expr → Prop
+def _root_.Fxp.Expr.Ok : Expr → Prop
   | .leaf f c => f.WF ∧ 0 < f.nword ∧ f.InRange c
   | .add l r => l.Ok ∧ r.Ok
   | .sub l r => l.Ok ∧ r.Ok ∧ (l.hasSigned = true ∨ r.hasSigned = true)
